@@ -301,10 +301,13 @@ def run_real(c, ctx):
             spelling = rng.choice(['dict', 'tuple'])
             res = fn(f, sw['case_args'], cases_t if spelling == 'tuple' else cases_d, combos=combos, verbosity=0, **common_kw, **kw)
         else:
+            # the runner's own list of argument names, in an order of its own: the names given with a call (run_cases'
+            # fn_args, the key order of a Sampler's combos) need not be a prefix of it
+            own_args = list(sweeps.fn_args(sw)); rng.shuffle(own_args)
             if e == 'label':
-                r = xyz.label(fn_args=sweeps.fn_args(sw), **common_kw)(f)
+                r = xyz.label(fn_args=own_args, **common_kw)(f)
             else:
-                r = xyz.Runner(f, fn_args=sweeps.fn_args(sw), **common_kw)
+                r = xyz.Runner(f, fn_args=own_args, **common_kw)
             extra = {'to_df': True} if c['to_df'] else {}
             if c.get('reuse'):
                 # the same Runner ran before with a per-run constant: it must not linger
@@ -318,8 +321,10 @@ def run_real(c, ctx):
                 # a Sampler on the runner: the draws replay the case rows (first arguments through default_combos)
                 cols = {a: [row[j] for row in cases_t] for j, a in enumerate(sw['case_args'])}
                 h = rng.randint(0, len(sw['case_args']))
-                smp = xyz.Sampler(r, default_combos={a: _Replay(cols[a]) for a in sw['case_args'][:h]})
-                res = smp.sample_combos(len(cases_t), {a: _Replay(cols[a]) for a in sw['case_args'][h:]}, verbosity=0, **per_run, **kw)
+                dflt = rng.sample(sw['case_args'], h)                  # any subset through default_combos, in any order
+                rest = [a for a in sw['case_args'] if a not in dflt]; rng.shuffle(rest)
+                smp = xyz.Sampler(r, default_combos={a: _Replay(cols[a]) for a in dflt})
+                res = smp.sample_combos(len(cases_t), {a: _Replay(cols[a]) for a in rest}, verbosity=0, **per_run, **kw)
                 if smp.last_df is not res: return {'err': 'last_df', 'msg': 'Sampler.last_df is not the returned table'}
                 if labelled.canon_df(smp.full_df) != labelled.canon_df(res): return {'err': 'full_df', 'msg': 'Sampler.full_df differs from the first table added'}
             elif sw['rows'] is not None:
